@@ -44,6 +44,10 @@ func (e *Exec) timeMethod(name string, recv Term, args []Term, c *Ctx) (Term, bo
 
 func (e *Exec) ceil(v Term) Term {
 	n := v.S
+	if hasBound(n) {
+		e.vc.Decl("ax:ceil", "(assert (forall ((x!b Real)) (! (and (>= (ceil! x!b) x!b) (< (ceil! x!b) (+ x!b 1.0)) (is_int (ceil! x!b))) :pattern ((ceil! x!b)))))")
+		return Term{fmt.Sprintf("(ceil! %s)", n), tReal}
+	}
 	if !isAtom(n) {
 		n = e.vc.Define("ceilarg", "Real", v.S)
 	}
@@ -304,6 +308,10 @@ func (e *Exec) lock(recvExpr ast.Expr, c *Ctx, call *ast.CallExpr) {
 	st := c.st
 	h := e.heldArr(st, owner.T.Name, mu)
 	e.set(st, "$held!"+owner.T.Name+"."+mu, Term{fmt.Sprintf("(store %s %s true)", h.S, owner.S), h.T})
+	if fnm := exprText(call.Fun); !strings.HasSuffix(fnm, ".RLock") {
+		hw := e.heldArr(st, owner.T.Name, mu+"!w")
+		e.set(st, "$held!"+owner.T.Name+"."+mu+"!w", Term{fmt.Sprintf("(store %s %s true)", hw.S, owner.S), hw.T})
+	}
 	m := e.prog.monitors[owner.T.Name+"."+mu]
 	if m == nil {
 		return
@@ -313,6 +321,24 @@ func (e *Exec) lock(recvExpr ast.Expr, c *Ctx, call *ast.CallExpr) {
 		// any other thread may have run: protected state is arbitrary but satisfies the invariant
 		ot := &Type{K: KRef, Name: owner.T.Name, St: owner.T.St, Subst: owner.T.Subst}
 		for _, pf := range m.Protects {
+			if strings.HasPrefix(pf, "smap(") {
+				// contents of a sync.Map reachable from the owner: arbitrary after the acquire
+				ex, err := parseSpec(strings.TrimSuffix(strings.TrimPrefix(pf, "smap("), ")"))
+				if err != nil {
+					e.errorf("monitor %s: %v", m.Struct, err)
+					continue
+				}
+				pk := e.prog.pkgs[m.PkgPath]
+				cfr := &Frame{pkg: pk, info: pk.TypesInfo, names: map[string]string{}, ntypes: map[string]*Type{}, closures: map[string]*ast.FuncLit{}}
+				sc := &Ctx{st: st, fr: cfr, spec: true, bound: map[string]Term{m.Self: owner}}
+				so, fld := e.syncMapOwner(ex, sc)
+				d, va := e.syncMapArrs(st, so, fld)
+				nd := e.vc.FreshConst("intf_smdom", "(Array Any Bool)")
+				nv := e.vc.FreshConst("intf_smval", "(Array Any Any)")
+				e.set(st, "SM!"+fld+"!dom", Term{fmt.Sprintf("(store %s %s %s)", d.S, so.S, nd), d.T})
+				e.set(st, "SM!"+fld+"!val", Term{fmt.Sprintf("(store %s %s %s)", va.S, so.S, nv), va.T})
+				continue
+			}
 			path := e.findField(ot, pf, 0)
 			if path == nil {
 				e.errorf("monitor %s.%s protects unknown field %s", m.Struct, m.Mutex, pf)
@@ -347,6 +373,61 @@ func (e *Exec) unlock(recvExpr ast.Expr, c *Ctx, call *ast.CallExpr) {
 		e.monitorInv(m, owner, st, c.fr, true, e.prog.pos(call))
 	}
 	e.set(st, "$held!"+owner.T.Name+"."+mu, Term{fmt.Sprintf("(store %s %s false)", h.S, owner.S), h.T})
+	hw := e.heldArr(st, owner.T.Name, mu+"!w")
+	e.set(st, "$held!"+owner.T.Name+"."+mu+"!w", Term{fmt.Sprintf("(store %s %s false)", hw.S, owner.S), hw.T})
+}
+
+// guardWrite: a write to a protected field (or into the map/slice stored in it) needs the write lock.
+func (e *Exec) guardWrite(c *Ctx, base Term, field string, n ast.Node) {
+	if e.mode != "conc" || c.spec {
+		return
+	}
+	for _, m := range e.prog.monitors {
+		if m.Struct != base.T.Name {
+			continue
+		}
+		for _, pf := range m.Protects {
+			if pf == field {
+				h := e.heldArr(c.st, base.T.Name, m.Mutex+"!w")
+				name := fmt.Sprintf("%s#guarded-by[%s.%s:%s:write]", e.fnName, shortStructName(m.Struct), m.Mutex, field)
+				e.assert(c.st, name, "guarded-by", fmt.Sprintf("(select %s %s)", h.S, base.S), "write to "+field+" needs the write lock "+m.Mutex, e.prog.pos(n), nil)
+			}
+		}
+	}
+}
+
+// guardWriteThrough: x.f[k] = v / delete(x.f, k) where f is a protected field.
+func (e *Exec) guardWriteThrough(x ast.Expr, c *Ctx) {
+	if e.mode != "conc" || c.spec {
+		return
+	}
+	se, ok := unparen(x).(*ast.SelectorExpr)
+	if !ok {
+		return
+	}
+	if tv, ok := c.fr.info.Types[se.X]; ok {
+		bt := e.prog.TypeOf(tv.Type, c.fr.subst)
+		if bt.K == KRef && bt.Name != "" {
+			if _, isMon := e.protectedField(bt.Name, se.Sel.Name); isMon {
+				base := e.eval(se.X, c)
+				e.guardWrite(c, base, se.Sel.Name, x)
+			}
+		}
+	}
+}
+
+func (e *Exec) protectedField(structName, field string) (*Monitor, bool) {
+	for _, m := range e.prog.monitors {
+		if m.Struct != structName {
+			continue
+		}
+		for _, pf := range m.Protects {
+			if pf == field {
+				return m, true
+			}
+		}
+	}
+	return nil, false
 }
 
 // guardedBy: an access to a protected field requires the monitor's lock.
@@ -730,6 +811,10 @@ func (e *Exec) contractEffects(ct *Contract, fn *types.Func, sig *types.Signatur
 					}
 				}
 				ef.all = true
+			case id != nil && id.Name == "smapof":
+				_, fld := e.syncMapOwner(x.Args[0], sc)
+				ef.heap["SM!"+fld+"!dom"] = &Type{K: KGMap, Key: tInt, Elem: &Type{K: KGMap, Key: tAny, Elem: tBool}}
+				ef.heap["SM!"+fld+"!val"] = &Type{K: KGMap, Key: tInt, Elem: &Type{K: KGMap, Key: tAny, Elem: tAny}}
 			default:
 				ef.all = true
 			}
